@@ -802,6 +802,13 @@ func pipeFor(r *eng.Run, in []byte, seg int) *Pipe {
 // scripted pipes (needed to repeat a Dial with the same nonce).
 var clientSeed *int64
 
+func init() {
+	eng.RunStartHooks = append(eng.RunStartHooks, func() {
+		clientSeed, lastStatusSeen = nil, nil
+		lastExts, lastExtsCopy = nil, nil
+	})
+}
+
 // roundTrip runs client(no input) -> server(request) -> client(response).
 func roundTrip(r *eng.Run, c hsClient, s hsServer, rseed int64, segS, segC int) *hsTrip {
 	t := &hsTrip{C: c, S: s, RSeed: rseed}
